@@ -108,6 +108,8 @@ class TheCheck(Check):
                 st.harness, st.module, st.wraps, st.oracle = c17_parsers.HARNESS, c17_parsers.MODULE, c17_parsers.WRAPS, oracle
                 st.name = "parsers:" + st.name
                 sts.append(st)
+        from checks import mtpure
+        sts.append(mtpure.stream(self))      # hidden shared state shows only with concurrent callers
         return sts
 
     def judge(self, op, line):
